@@ -799,6 +799,44 @@ func (g *Gen) findTraced() {
 		g.tracedResTypes[name] = rs
 	}
 	g.externTraceTypes()
+	// interface methods of the module ("Input.Get"): argument 0 is the receiver (the interface value)
+	for _, name := range sortedKeys(g.traced) {
+		if _, ok := g.tracedArgTypes[name]; ok || strings.ContainsAny(name, "()") {
+			continue
+		}
+		i := strings.Index(name, ".")
+		if i <= 0 {
+			continue
+		}
+		for _, path := range sortedKeys(g.allTypes) {
+			p := g.allTypes[path]
+			if !g.inModule(p.Path()) {
+				continue
+			}
+			tn, ok := p.Scope().Lookup(name[:i]).(*types.TypeName)
+			if !ok {
+				continue
+			}
+			it, ok := tn.Type().Underlying().(*types.Interface)
+			if !ok {
+				continue
+			}
+			for k := 0; k < it.NumMethods(); k++ {
+				if m := it.Method(k); m.Name() == name[i+1:] {
+					sig := m.Type().(*types.Signature)
+					ts := []types.Type{tn.Type()}
+					var rs []types.Type
+					for q := 0; q < sig.Params().Len(); q++ {
+						ts = append(ts, sig.Params().At(q).Type())
+					}
+					for q := 0; q < sig.Results().Len(); q++ {
+						rs = append(rs, sig.Results().At(q).Type())
+					}
+					g.tracedArgTypes[name], g.tracedResTypes[name] = ts, rs
+				}
+			}
+		}
+	}
 	// named function types of the module ("FuncCheck"): argument 0 is the function value itself
 	for _, name := range sortedKeys(g.traced) {
 		if _, ok := g.tracedArgTypes[name]; ok || strings.ContainsAny(name, ".()") {
@@ -991,6 +1029,10 @@ func (g *Gen) observeOf(name, obs string) (*Observe, *types.Package) {
 		}
 		switch f[0] {
 		case "func":
+			if len(f) < 3 || strings.Join(f[2:], " ") != name {
+				continue
+			}
+		case "functype":
 			if len(f) < 3 || strings.Join(f[2:], " ") != name {
 				continue
 			}
